@@ -143,7 +143,7 @@ class Ctx:
             return MM.ret(st, args[0])  # key wrapper conversions keep the key's identity
         if re.search(r"to_ed25519_verification_key$", f):
             return MM.ret(st, Abs("key", z3.Int("genesis_verification_key")))
-        if re.search(r"(Ed25519VerificationKey|VerifyingKey|ProtocolKey<.*>|ProtocolGenesisVerificationKey)(::<.*>)?::verify$", f) or re.search(r"GenesisVerificationKey.*::verify$", f):
+        if re.search(r"ProtocolKey<VerifyingKey>>::verify$", f) or re.search(r"GenesisVerificationKey.*::verify$", f):
             vk = MM.deref_all(I, st, args[0])
             msg = MM.deref_all(I, st, args[1])
             sig = MM.deref_all(I, st, args[2])
@@ -177,3 +177,235 @@ class Ctx:
         co = st.mem[(args[0].fields[0].frame, 0)]
         st.mem[(args[0].fields[0].frame, 0)] = EnumV("coroutine", 0, {"upvars": (Ref(fr, 0, ()), Ref(fr + 1, 0, ()), Ref(fr + 2, 0, ()))})
         return self.I.call_fn(body, args, st)
+
+    def run_genesis(self):
+        c, sbc = self.cert("gen")
+        self.g, self.sbg = c, sbc
+        body, st, args = self.make_coroutine_call(r"::verify_genesis_certificate::\{closure#0\}$", [])
+        for k in sbc.constraints:
+            st.assume(k)
+        fr = self.I.frame_counter + 1
+        self.I.frame_counter += 2
+        st.mem[(fr, 0)] = Agg("adt", "MithrilCertificateVerifier", (Opaque("logger"), Opaque("retriever"), Opaque("genesis_verifier")))
+        st.mem[(fr + 1, 0)] = c
+        st.mem[(args[0].fields[0].frame, 0)] = EnumV("coroutine", 0, {"upvars": (Ref(fr, 0, ()), Ref(fr + 1, 0, ()))})
+        return self.I.call_fn(body, args, st)
+
+
+def field(db, cert, name):
+    names = [n for n, t in db.struct_fields("Certificate")]
+    return cert.fields[names.index(name)]
+
+
+def accepted(outs):
+    """[(pc list, state)] of outcomes returning Poll::Ready(Ok(()))"""
+    acc = []
+    other = []
+    for o in outs:
+        if o.kind != "return":
+            other.append(o)
+            continue
+        v = o.value
+        if not isinstance(v, EnumV) or not v.payloads:
+            raise Unencodable("unexpected coroutine result %r" % (v,))
+        res = list(v.payloads.values())[0][0]
+        d = res.discr
+        if isinstance(d, int):
+            if d == 0:
+                acc.append((list(o.pc), o.state))
+        else:
+            acc.append((list(o.pc) + [d == 0], o.state))
+    return acc, other
+
+
+def run(tier, seed):
+    rep = core.Report("C03", tier, seed)
+    rep.trusted_base = ["rustc nightly MIR", "mir2smt interpreter + call models (mir2smt/models.py, checks/c03.py)", "z3, cvc5 cross-check"]
+    rep.functions = ["source hashes: %s" % core.source_hashes(SRC)]
+    rep.assumptions = [
+        "Strings, keys, signatures, parameter sets, protocol messages are elements of uninterpreted sorts: only equality observes them (String/ProtocolKey/ProtocolParameters PartialEq = identity of the value)",
+        "Certificate::try_compute_hash = an uninterpreted function of every field but `hash` (what it covers is C04); ProtocolMessage::compute_hash, ProtocolParameters::compute_hash uninterpreted (the latter injective: collision resistance)",
+        "Epoch::to_string injective; ProtocolMessage::get_message_part(key) = arbitrary partial function of (message, key)",
+        "AVK decoding (TryFrom<&str>) = arbitrary partial function of the string",
+        "multi-signature / genesis-signature verification = deterministic oracle of (message, signature, key, parameters) (what it checks is C01)",
+        "Clone/ToOwned return an equal value; key wrapper conversions keep the key; logging (slog) disabled; default cargo features (no future_snark)",
+        "one link from an arbitrary (certificate, previous certificate) pair; chains of any length by induction on the link predicate; reaching genesis in finitely many steps rests on collision resistance of the certificate hash (paper argument)",
+    ]
+    rep.outside = ["the client's cached verify_chain loop and certificate retrieval (async, network)", "STM verification (C01), hash pre-image coverage (C04)",
+                   "verify_certificate's dispatch is only checked syntactically (calls present in its MIR)", "future_snark feature"]
+    rep.solver_vars = ["both epochs: all of u64 x u64", "identity of every string / key / signature / parameter set of both certificates",
+                       "presence and content of every protocol-message part", "every oracle verdict and decoder outcome", "signature variant of both certificates"]
+    try:
+        path, dt = mir.dump("mithril-common")
+    except Exception as e:
+        rep.inconcl("MIR dump failed: %s" % e)
+        return rep.finish()
+    prog = MI.Program(open(path).read(), source_root=os.path.join(core.REPO, "mithril-common"))
+    ctx = Ctx(prog)
+    tmo = 60 if tier == "quick" else 300
+    try:
+        decide(rep, ctx, prog, tmo, tier)
+    except Unencodable as e:
+        rep.inconcl("unencodable: %s" % e)
+    rep.functions += sorted("%s -> %s" % (k, v) for k, v in ctx.I.calls_seen.items())
+    rep.notes.append("interpreter stats: %s, feasibility checks %d" % (ctx.I.stats, ctx.I.solver_checks))
+    return rep.finish()
+
+
+def decide(rep, ctx, prog, tmo, tier):
+    I = ctx.I
+    db = ctx.db
+    outs = ctx.run_standard()
+    acc, other = accepted(outs)
+    rep.bounds = {"paths_standard": len(outs), "accepting_paths": len(acc), "loop_unroll": 4}
+    for o in other:
+        rep.inconcl("non-returning path in verify_standard_certificate: %s %s" % (o.kind, o.msg))
+    if not acc:
+        rep.inconcl("no accepting path (vacuous)")
+        return
+    c, p = ctx.c, ctx.p
+    F = lambda cert, n: field(db, cert, n)
+    keytbl = I.enum_tables.get("ProtocolMessagePartKey") or I.load_enum("ProtocolMessagePartKey")
+    K = lambda n: z3.IntVal(keytbl[n])
+    sigtbl = I.enum_tables.get("CertificateSignature") or I.load_enum("CertificateSignature")
+    c_epoch, p_epoch = F(c, "epoch").fields[0], F(p, "epoch").fields[0]
+    c_pm, p_pm = F(c, "protocol_message").term, F(p, "protocol_message").term
+    c_avk, p_avk = F(c, "aggregate_verification_key").term, F(p, "aggregate_verification_key").term
+    c_pp = F(F(c, "metadata"), "protocol_parameters") if False else None
+    md_names = [n for n, t in db.struct_fields("CertificateMetadata")]
+    c_pp = F(c, "metadata").fields[md_names.index("protocol_parameters")].term
+    p_pp = F(p, "metadata").fields[md_names.index("protocol_parameters")].term
+    c_sig = F(c, "signature")
+    msig_idx = sigtbl["MultiSignature"]
+    c_msig = c_sig.payloads[msig_idx][1].term
+    accept = z3.Or([z3.And(pc) for pc, _ in acc])
+    same = z3.And(p_epoch == c_epoch, p_avk == c_avk, p_pp == c_pp)
+    nxt = z3.And(p_epoch + 1 == c_epoch,
+                 ctx.HAS(p_pm, K("NextAggregateVerificationKey")), ctx.DECOK(ctx.PART(p_pm, K("NextAggregateVerificationKey"))),
+                 ctx.DEC(ctx.PART(p_pm, K("NextAggregateVerificationKey"))) == c_avk,
+                 ctx.HAS(p_pm, K("NextProtocolParameters")), ctx.PART(p_pm, K("NextProtocolParameters")) == ctx.PPH(c_pp))
+    clauses = [
+        ("not_self_loop", "hash != previous_hash", F(c, "hash").term != F(c, "previous_hash").term),
+        ("hash_matches_content", "hash = H(every other field of the certificate)", F(c, "hash").term == ctx.content_hash(c)),
+        ("signed_message_is_message_digest", "signed_message = digest(protocol_message)", F(c, "signed_message").term == ctx.PMH(c_pm)),
+        ("epoch_inside_signed_message", "the protocol message carries CurrentEpoch = to_string(certificate.epoch)",
+         z3.And(ctx.HAS(c_pm, K("CurrentEpoch")), ctx.PART(c_pm, K("CurrentEpoch")) == ctx.EPSTR(c_epoch))),
+        ("is_multi_signature", "a standard certificate carries a multi-signature", c_sig.discr == msig_idx),
+        ("multi_signature_valid_for_own_message_key_params", "the multi-signature oracle accepted (this signed_message, this signature, this AVK, these parameters)",
+         ctx.MSIG(F(c, "signed_message").term, c_msig, c_avk, c_pp)),
+        ("previous_hash_is_previous_certificate", "previous.hash = certificate.previous_hash", F(p, "hash").term == F(c, "previous_hash").term),
+        ("link_same_or_immediately_preceding_epoch", "same epoch with same AVK and parameters, or previous epoch + 1 = epoch with previous signing exactly this AVK and these parameters; nothing else",
+         z3.Or(same, nxt)),
+    ]
+    failures = []
+    for name, desc, clause in clauses:
+        ob = rep.add(core.Obligation("c03_standard_" + name, "smt", "accept => " + desc, {"vccs": len(acc)}))
+        r = smt.check([accept, z3.Not(clause)], timeout_s=tmo, cross=True)
+        ob.solver_s = r.seconds
+        if r.status == "unsat":
+            ob.status = "discharged"
+            ob.detail = "cvc5: %s" % r.cross.get("cvc5")
+        elif r.status == "sat":
+            ob.status = "failed"
+            md = smt.model_to_dict(r.model)
+            ob.counterexample = {k: v for k, v in md.items() if "epoch" in k or k.endswith(".hash") or "previous_hash" in k}
+            failures.append((name, ob, r.model, md))
+        else:
+            ob.status = "inconclusive"
+            ob.detail = r.reason
+            rep.inconcl("%s: %s" % (name, r.reason))
+    # vacuity witnesses: both link shapes are accepted by some pair
+    for nm, shape in (("same_epoch", same), ("next_epoch", nxt)):
+        ob = rep.add(core.Obligation("c03_witness_" + nm, "smt", "witness: a %s link is accepted (the encoding is not vacuous)" % nm))
+        r = smt.check([accept, shape], timeout_s=tmo)
+        ob.solver_s = r.seconds
+        ob.status = "discharged" if r.status == "sat" else "inconclusive"
+        if r.status != "sat":
+            rep.inconcl("witness %s not satisfiable: %s" % (nm, r.status))
+    # call-order obligation: the multi-signature oracle is consulted on every accepting path, exactly once
+    ob = rep.add(core.Obligation("c03_standard_oracle_called_once", "smt", "every accepting path consults the multi-signature oracle exactly once"))
+    ob.status = "discharged" if all(len([e for e in st.trace if e[0] == "verify_multi_signature"]) == 1 for _, st in acc) else "failed"
+    if ob.status == "failed":
+        failures.append(("oracle_called_once", ob, None, {}))
+    # ---- genesis ---------------------------------------------------------------------------------
+    gouts = ctx.run_genesis()
+    gacc, gother = accepted(gouts)
+    for o in gother:
+        rep.inconcl("non-returning path in verify_genesis_certificate: %s %s" % (o.kind, o.msg))
+    g = ctx.g
+    g_sig = F(g, "signature")
+    gen_idx = sigtbl["GenesisSignature"]
+    g_pm = F(g, "protocol_message").term
+    gaccept = z3.Or([z3.And(pc) for pc, _ in gacc]) if gacc else z3.BoolVal(False)
+    gclauses = [
+        ("is_genesis_signature", "the certificate carries a genesis signature", g_sig.discr == gen_idx),
+        ("hash_matches_content", "hash = H(content)", F(g, "hash").term == ctx.content_hash(g)),
+        ("signed_message_is_message_digest", "signed_message = digest(protocol_message)", F(g, "signed_message").term == ctx.PMH(g_pm)),
+        ("genesis_signature_valid", "the genesis-signature oracle accepted (signed_message, this signature) under the configured key",
+         ctx.GSIG(F(g, "signed_message").term, g_sig.payloads[gen_idx][0].term)),
+        ("epoch_inside_signed_message", "CurrentEpoch part = to_string(epoch)",
+         z3.And(ctx.HAS(g_pm, K("CurrentEpoch")), ctx.PART(g_pm, K("CurrentEpoch")) == ctx.EPSTR(F(g, "epoch").fields[0]))),
+    ]
+    for name, desc, clause in gclauses:
+        ob = rep.add(core.Obligation("c03_genesis_" + name, "smt", "accept => " + desc, {"vccs": len(gacc)}))
+        r = smt.check([gaccept, z3.Not(clause)], timeout_s=tmo, cross=True)
+        ob.solver_s = r.seconds
+        if r.status == "unsat":
+            ob.status = "discharged"
+        elif r.status == "sat":
+            ob.status = "failed"
+            failures.append(("genesis_" + name, ob, r.model, smt.model_to_dict(r.model)))
+        else:
+            ob.status = "inconclusive"
+            rep.inconcl("genesis %s: %s" % (name, r.reason))
+    ob = rep.add(core.Obligation("c03_witness_genesis", "smt", "witness: some genesis certificate is accepted"))
+    r = smt.check([gaccept], timeout_s=tmo)
+    ob.status = "discharged" if r.status == "sat" else "inconclusive"
+    if r.status != "sat":
+        rep.inconcl("genesis witness not satisfiable")
+    for kk, st in gacc:
+        if not any(e[0] == "verify_genesis_signature" and e[1][2] is not None and str(e[1][2]) == "genesis_verification_key" for e in st.trace):
+            rep.inconcl("genesis signature not verified under the configured genesis key on some accepting path")
+    # ---- dispatch (syntactic): verify_certificate calls the three pieces ----------------------------
+    vc = prog.find_one(r"::verify_certificate::\{closure#0\}$")
+    from mir2smt import parser as P
+    calls = set()
+    for b in vc.blocks.values():
+        P.materialize(b)
+        if b.term[0] == "call":
+            calls.add(MI.last_segment(b.term[2])[0])
+    need = {"is_genesis", "verify_genesis_certificate", "fetch_previous_certificate", "verify_standard_certificate"}
+    ob = rep.add(core.Obligation("c03_dispatch_calls_present", "smt", "verify_certificate's body calls %s (syntactic check of its MIR)" % sorted(need)))
+    ob.status = "discharged" if need <= calls else "failed"
+    if ob.status == "failed":
+        failures.append(("dispatch", ob, None, {"missing": sorted(need - calls)}))
+    # ---- replay -------------------------------------------------------------------------------------
+    k = 0
+    for name, ob, model, md in failures:
+        k += 1
+        role = "c03-" + name
+        ob.role = role
+        native = {}
+        reproduced = False
+        if name == "link_same_or_immediately_preceding_epoch" and model is not None:
+            ce = model.eval(c_epoch, model_completion=True).as_long()
+            pe = model.eval(p_epoch, model_completion=True).as_long()
+            try:
+                from checks.c17 import native_query
+                native["kernel"] = {"query": "epoch_gap %d %d" % (ce, pe), "has_gap_with": native_query(["epoch_gap %d %d" % (ce, pe)])[0]}
+                native["end_to_end"] = native_query(["chain_link %d" % (1 if pe > ce else 0)])[0]
+                reproduced = native["kernel"]["has_gap_with"] == "false" and pe not in (ce, ce - 1) and native["end_to_end"].startswith("accepted")
+            except Exception as e:
+                native["error"] = str(e)
+            what = "link accepted with certificate.epoch=%d previous.epoch=%d (neither same nor immediately preceding); native: %s" % (ce, pe, native)
+            if pe == ce + 1:
+                role = "c03-link-to-following-epoch"
+                ob.role = role
+        else:
+            what = "clause %s fails: %s" % (name, str(md)[:300])
+            reproduced = model is None
+        path = core.write_replay("C03", k, {"property": "C03", "role": role, "obligation": ob.name, "model": {a: b for a, b in md.items() if len(str(b)) < 80},
+                                            "native_replay": native})
+        rep.violation(role, what, path, reproduced)
+        if reproduced:
+            rep.traces_validated += 1
